@@ -15,11 +15,11 @@ if [ "$patch" != "/dev/null" ]; then
   git -C "$base/repo" apply "$patch" || { echo "patch does not apply"; git -C /repo worktree remove --force "$base/repo"; exit 3; }
 fi
 mkdir -p "$base/verif"
-rsync -a --exclude .git --exclude replays --exclude .build --exclude logs --exclude seeded /verif/ "$base/verif/"
+rsync -a --exclude .git --exclude replays --exclude .build --exclude logs --exclude seeded "${SRC_VERIF:-/verif}/" "$base/verif/"
 # point every /repo reference of the harness at the scratch worktree (cargo then rebuilds cooklang + vmon only)
 grep -rlZ '/repo' "$base/verif/harness/src" "$base/verif/harness/Cargo.toml" "$base/verif/harness_bindings/src" \
      "$base/verif/harness_bindings/Cargo.toml" "$base/verif/check" "$base/verif/lib/overlays.py" 2>/dev/null \
-  | xargs -0 sed -i "s#/repo#$base/repo#g"
+  | xargs -0 sed -i "s#${SRC_REPO:-/repo}#$base/repo#g"
 cd "$base/verif"
 if [ "$ids" = all ]; then ids=$(python3 -c "import sys; sys.path.insert(0,'lib'); from props import PROPS; print(','.join(sorted(PROPS)))"); fi
 for id in ${ids//,/ }; do
